@@ -268,6 +268,9 @@ def r14d(ctx, P):
     ctx.floor(rid, n, 1, "SegmentReader::get_doc call in the compaction stream")
 
 
+THOROUGH_FEATURES = ['r14c', 'r14d']
+
+
 def run(ctx, progs):
     P = progs.get("default")
     r14a(ctx, P)
